@@ -264,6 +264,13 @@ func (l *Lexer) readString(delimiter byte) (string, bool) {
 		// Handle escape sequences
 		if l.CurrentChar == '\\' {
 			l.ReadChar() // Move to the character after backslash
+			if l.CurrentChar == 0 && l.position >= len(l.input) {
+				// the input ends right after the backslash: the literal is unterminated
+				// (do not read on, the lexer would move beyond the end of the input)
+				result.WriteByte('\\')
+				terminated = false
+				break
+			}
 			if l.CurrentChar == 'x' {
 				// Handle hexadecimal escape sequence \xHH
 				hex1 := l.PeekChar()
